@@ -23,3 +23,5 @@ def run(ctx):
     pathrules.B1(ctx)
     from . import atomics
     atomics.M5b(ctx)
+    from . import guardvocab
+    guardvocab.G0(ctx, effects={'backtrack', 'record-access', 'branch', 'explore'})
